@@ -234,9 +234,14 @@ namespace details {
 
         assert( output.second );
 
+        // never offer more than the link layer provided (as transmit_single_pending_l2cap_output() does)
+        const std::size_t out_capacity = output.first - l2cap_layer_header_size < maximum_mtu_size
+            ? output.first - l2cap_layer_header_size
+            : maximum_mtu_size;
+
         l2cap_input_handler< ConnectionDetails > handler(
             this, channel_id, input + l2cap_layer_header_size, in_size - l2cap_layer_header_size,
-            output.second + l2cap_layer_header_size, maximum_mtu_size, connection );
+            output.second + l2cap_layer_header_size, out_capacity, connection );
 
         for_< Channels... >::template each< l2cap_input_handler< ConnectionDetails >& >( handler );
 
